@@ -172,11 +172,15 @@ func (n *node) barrier(nonce uint64) bool {
 			if v == nonce {
 				return true
 			}
-		case <-time.After(3 * time.Second):
+		case <-time.After(15 * time.Second):
+			shaky = true // a live connection that does not answer a ping in 15 s: the machine is too busy for a verdict
 			return false
 		}
 	}
 }
+
+// shaky is set when a synchronisation barrier timed out: what follows in that behaviour is not evidence
+var shaky bool
 
 type syncRig struct {
 	*rig
@@ -458,6 +462,8 @@ func opSync() error {
 		consumed := map[int]int{}
 		everClosed := map[int]bool{}
 		drifted := false
+		shaky = false
+		outAtStart := len(out)
 		var lastMgr *syStep
 		for k := 0; k < len(b.Hist); k++ {
 			st := b.Hist[k]
@@ -610,7 +616,7 @@ func opSync() error {
 			if bannedConnect {
 				wantClosed[st.P] = true // a node of a banned host is refused
 			}
-			deadline := time.Now().Add(3 * time.Second)
+			deadline := time.Now().Add(12 * time.Second)
 			if drifted {
 				deadline = time.Now().Add(30 * time.Millisecond)
 			}
@@ -794,6 +800,10 @@ func opSync() error {
 		}
 		if drifted {
 			res.Stats["drifted-behaviours"]++
+		}
+		if shaky {
+			out = out[:outAtStart]
+			res.Stats["inconclusive-behaviours"]++
 		}
 		sr.stop()
 		_ = os.Remove(dbPath)
